@@ -2,6 +2,7 @@
 C01 helper lemmas: the decision procedure against the conjunction of the rule predicates.
 -/
 import BV.C01.Model
+import BV.C01.ChainLemmas
 namespace BV.C01.Lemmas
 open BV.C01
 
@@ -34,5 +35,82 @@ theorem validBlock_error (d : Desc) (r : Rule) (h : validBlock d = .error r) : r
     unfold firstViolation at hf
     have := List.find?_some hf
     simpa using this
+
+/-! ### the three stages at which btcd applies the rules, and the oracle they induce -/
+
+/-- 0 = checkBlockSanity (context free), 1 = checkBlockContext, 2 = checkConnectBlock -/
+def stage : Rule → Nat
+  | .powTarget | .powHash | .timeNew | .noTx | .baseSize | .firstCoinbase | .multiCoinbase
+  | .txNoInputs | .txNoOutputs | .txTooBig | .outValue | .dupInputs | .cbScriptLen | .nullPrevout
+  | .merkle | .dupTx | .sigopsLegacy => 0
+  | .bits | .timeOld | .timewarp | .version | .finality | .bip34Height | .witnessCommit
+  | .unexpectedWitness | .weight => 1
+  | .bip30 | .missingInput | .immature | .inValue | .spendTooHigh | .feeRange | .coinbaseValue
+  | .seqLocks | .scripts | .sigopsCost => 2
+
+def stageOk (k : Nat) (d : Desc) : Bool := Rule.all.all (fun r => stage r != k || ruleOk r d)
+
+theorem stage_lt (r : Rule) : stage r = 0 ∨ stage r = 1 ∨ stage r = 2 := by
+  cases r <;> simp [stage]
+
+theorem stageOk_of_valid (d : Desc) (h : Valid d) (k : Nat) : stageOk k d = true := by
+  unfold stageOk
+  rw [List.all_eq_true]
+  intro r _
+  simp [h r]
+
+theorem valid_of_stages (d : Desc) (h0 : stageOk 0 d = true) (h1 : stageOk 1 d = true)
+    (h2 : stageOk 2 d = true) : Valid d := by
+  intro r
+  unfold stageOk at h0 h1 h2
+  rw [List.all_eq_true] at h0 h1 h2
+  have m := mem_all r
+  rcases stage_lt r with e | e | e
+  · have := h0 r m; simpa [e] using this
+  · have := h1 r m; simpa [e] using this
+  · have := h2 r m; simpa [e] using this
+
+open Chain in
+/-- the oracle induced by a derivation `D` of the description from a block and its own ancestor list -/
+def oracleOf {β : Type} (D : List (Blk β) → Blk β → Desc) : Oracle β :=
+  { sane := fun b => stageOk 0 (D [] b)
+    ctxOk := fun anc b => stageOk 1 (D anc b)
+    connOk := fun anc b => stageOk 2 (D anc b) }
+
+/-- the sanity stage does not look at the context part of the description -/
+def ContextFree {β : Type} (D : List (Chain.Blk β) → Chain.Blk β → Desc) : Prop :=
+  ∀ anc b, stageOk 0 (D anc b) = stageOk 0 (D [] b)
+
+open Chain in
+theorem oracle_all_iff {β : Type} (D : List (Blk β) → Blk β → Desc) (hD : ContextFree D)
+    (anc : List (Blk β)) (b : Blk β) :
+    ((oracleOf D).sane b = true ∧ (oracleOf D).ctxOk anc b = true ∧ (oracleOf D).connOk anc b = true) ↔
+      validBlock (D anc b) = .ok () := by
+  rw [validBlock_ok_iff]
+  unfold oracleOf
+  simp only []
+  constructor
+  · rintro ⟨h0, h1, h2⟩
+    rw [← hD anc b] at h0
+    exact valid_of_stages _ h0 h1 h2
+  · intro h
+    refine ⟨?_, stageOk_of_valid _ h 1, stageOk_of_valid _ h 2⟩
+    rw [← hD anc b]
+    exact stageOk_of_valid _ h 0
+
+open Chain in
+/-- every block of `l` (tip first) except the final genesis block is valid on its own suffix -/
+def AllValid {β : Type} (D : List (Blk β) → Blk β → Desc) (g : Blk β) : List (Blk β) → Prop
+  | [] => False
+  | b :: rest => (rest = [] ∧ b = g) ∨ (validBlock (D rest b) = .ok () ∧ AllValid D g rest)
+
+open Chain in
+theorem allValid_of_chainOk {β : Type} (D : List (Blk β) → Blk β → Desc) (hD : ContextFree D) (g : Blk β) :
+    ∀ l, ChainOk (oracleOf D) g l → AllValid D g l
+  | [], h => h
+  | b :: rest, h => by
+    rcases h with h | ⟨h0, h1, h2, h3⟩
+    · exact Or.inl h
+    · exact Or.inr ⟨(oracle_all_iff D hD rest b).mp ⟨h0, h1, h2⟩, allValid_of_chainOk D hD g rest h3⟩
 
 end BV.C01.Lemmas
